@@ -1,5 +1,5 @@
 CONSTANTS
-  MaxOps = 2
+  MaxOps = 3
   Dump = FALSE
 INIT Init
 NEXT Next
